@@ -51,24 +51,29 @@ def ClientAloneComplete : Prop :=
     ∀ s ∈ suffixes Gen.Wiring.goHttp Gen.Wiring.goHttpEmits hasServices, isCodecSuffix s = true →
       s ∈ suffixes Gen.Wiring.goClient Gen.Wiring.goClientEmits hasServices
 
-/-- **client alone, partial**: for files with services, every codec file go-http can emit other
-than the unwrap file is also emitted by go-client (by the same generator text). -/
-theorem client_alone_partial :
-    ∀ s ∈ suffixes Gen.Wiring.goHttp Gen.Wiring.goHttpEmits true, isCodecSuffix s = true → s ≠ "_unwrap.pb.go" →
-      s ∈ suffixes Gen.Wiring.goClient Gen.Wiring.goClientEmits true := by decide
+/-- **client alone, partial**: for files with AND without services, every codec file go-http can
+emit other than the unwrap file is also emitted by go-client (by the same generator text). The
+service-less half holds since `fix: go-client: emit int64 and enum encoding files for files
+without services` (entries `client_missing:encoding:file_without_services` and
+`client_missing:enum_encoding:file_without_services`, fixed). -/
+theorem client_alone_partial (hasServices : Bool) :
+    ∀ s ∈ suffixes Gen.Wiring.goHttp Gen.Wiring.goHttpEmits hasServices, isCodecSuffix s = true → s ≠ "_unwrap.pb.go" →
+      s ∈ suffixes Gen.Wiring.goClient Gen.Wiring.goClientEmits hasServices := by
+  cases hasServices <;> decide
 
-/-- **¬ ClientAloneComplete** (known findings C14 `client_missing:*`): go-client has no unwrap
-emitter, and returns before the int64 / enum codecs when a file has no services. -/
+/-- **¬ ClientAloneComplete** (known finding C14 `client_missing:unwrap`): go-client has no unwrap
+emitter. -/
 theorem not_client_alone : ¬ ClientAloneComplete := by
   intro h
   have := h true "_unwrap.pb.go" (by decide) (by decide)
   revert this; decide
 
-theorem serviceless_missing :
+/-- service-less files get their int64 / enum codecs from both plugins. -/
+theorem serviceless_codecs_emitted :
     "_encoding.pb.go" ∈ suffixes Gen.Wiring.goHttp Gen.Wiring.goHttpEmits false ∧
-    "_encoding.pb.go" ∉ suffixes Gen.Wiring.goClient Gen.Wiring.goClientEmits false ∧
+    "_encoding.pb.go" ∈ suffixes Gen.Wiring.goClient Gen.Wiring.goClientEmits false ∧
     "_enum_encoding.pb.go" ∈ suffixes Gen.Wiring.goHttp Gen.Wiring.goHttpEmits false ∧
-    "_enum_encoding.pb.go" ∉ suffixes Gen.Wiring.goClient Gen.Wiring.goClientEmits false := by decide
+    "_enum_encoding.pb.go" ∈ suffixes Gen.Wiring.goClient Gen.Wiring.goClientEmits false := by decide
 
 /-- order independence of writing both outputs into one directory: for every shared name the
 two contents are produced by identical generator text, so whichever plugin writes last leaves
